@@ -94,6 +94,22 @@ Section C03.
     key_ok rg (KSet ks) (KSet ks') h.
   Proof. intros; eapply key_ok_set; eassumption. Qed.
 
+  (* a callable key source is its result, and guess_key treats that result with the SAME
+     use_random flag: signing with (a callable returning) a key set and no kid in the header
+     picks a key of the set and stores its kid — it neither fails for several keys nor
+     leaves the kid out for one key *)
+  Theorem c03_guess_key_callable_forwards : forall ks h k okid,
+    (forall l x, choose l = Some x -> In x l) -> dget h s_kid = None ->
+    guess_key_sign choose (KSet ks) h = Ok (k, okid) ->
+    In k ks /\ exists id, okid = Some id /\ k_kid k = Some id.
+  Proof. intros ks h k okid; eapply guess_key_sign_set_random. Qed.
+
+  Theorem c03_guess_key_set_succeeds : forall ks h alg k id,
+    dget h s_kid = None -> py_getitem_str (PDict h) s_alg = Ok alg ->
+    choose (pick_candidates ks alg) = Some k -> k_kid k = Some id ->
+    guess_key_sign choose (KSet ks) h = Ok (k, Some id).
+  Proof. intros ks h alg k id; eapply guess_key_sign_set_succeeds. Qed.
+
   Theorem c03_mkey_ok_one : forall rg k k' m,
     corresponds k k' -> (0 < ec_len k)%nat -> mkey_ok rg (KOne k) (KOne k') m.
   Proof. intros; eapply mkey_ok_one; eassumption. Qed.
@@ -328,6 +344,7 @@ Proof. eexists. split; [vm_compute; reflexivity|]. split; [repeat split|vm_compu
 Print Assumptions c03_alg_rt.
 Print Assumptions c03_rt_key_ops.
 Print Assumptions c03_alg_rt_verify_only.
+Print Assumptions c03_guess_key_callable_forwards.
 Print Assumptions c03_key_ok_set.
 Print Assumptions c03_mkey_ok_set.
 Print Assumptions c03_compact_rt_gen.
